@@ -182,6 +182,17 @@ def r1_r2_r3(ctx):
     ctx.check("R18.3", "not-nan", not res.nan, "result-may-be-nan", c.loc(gfn), "result %r" % res,
               "generate(min, max) may return NaN (abstract result %r): with state 0 and an interval whose width overflows, 0 * inf = NaN, and NaN is not within [min, max]; "
               "`.max(min).min(max)` maps a NaN to min, `clamp` keeps it" % res)
+    # the stream: every call of generate advances the state exactly once, whatever its arguments (E6 summary: one write of self.current on
+    # every returning path) - otherwise the k-th value is not a function of the seed and k alone
+    from .. import e6
+    Eg = e6.Exec(c, gfn)
+    gp = [p_ for p_ in Eg.run_fn() if p_.exit is None or p_.exit[0] == "return"]
+    adv = [len([e_ for e_ in p_.eff if e_[0] == "set" and e_[1] == ("field", ("local", "self"), "current")]) for p_ in gp]
+    ctx.check("R18.1", "advances-once-per-call", bool(gp) and all(a_ == 1 for a_ in adv) and all(not p_.pc for p_ in gp), "state-advance-per-path:%s" % adv, c.loc(gfn),
+              "every call steps the generator exactly once, unconditionally",
+              "generate() has %d returning path(s) writing `current` %s time(s) (conditions: %s): a call that returns without stepping the state shifts the rest of the "
+              "sequence, so the sequence depends on the arguments of earlier calls, not on the seed alone"
+              % (len(gp), adv, "; ".join(e6.show(t_, 2)[:40] for p_ in gp for (t_, _) in p_.pc)[:160]))
     # MIR cross-check (dev profile only): every Assert terminator corresponds to an obligation kind we generated
     if "overflow_checks=true" in c.f.get("flags", ""):
         for p, fnn, pref in ((GEN + "::create", cfn, "create"), (GEN + "::generate", gfn, "generate")):
